@@ -93,7 +93,79 @@ func makeSerializer(kind string, args []string) serializer {
 	panic("bad-op")
 }
 
+// serializers bound to ONE object for all calls (the plain ones build a fresh object per call where the format allows)
+func makeSharedSerializers(kind string, args []string) (first serializer, again []serializer) {
+	switch kind {
+	case "sxg", "hdr":
+		e, _ := parseExchange(args)
+		wr := func(w io.Writer) (int64, bool, error) { return 0, false, e.Write(w) }
+		hd := func(w io.Writer) (int64, bool, error) { return 0, false, e.DumpExchangeHeaders(w) }
+		if kind == "sxg" {
+			return wr, []serializer{wr, hd}
+		}
+		return hd, []serializer{hd, wr}
+	case "cert":
+		c := certurlChain(args[0])
+		f := func(w io.Writer) (int64, bool, error) { return 0, false, c.Write(w) }
+		return f, []serializer{f}
+	case "bundle":
+		b, _ := parseBundle(args)
+		f := func(w io.Writer) (int64, bool, error) { n, err := b.WriteTo(w); return n, true, err }
+		return f, []serializer{f}
+	}
+	f := makeSerializer(kind, args)
+	return f, []serializer{f}
+}
+
 func init() {
+	// the faulted call comes FIRST on a fresh object; afterwards the same object is serialised again, fault-free, through every
+	// serializer it has: each retry must succeed with exactly the bytes a never-faulted object gives (no truncated memo, no half state)
+	register("fault.retry", func(args []string) string {
+		kind := args[0]
+		k, err := strconv.Atoi(args[1])
+		if err != nil {
+			panic("bad-op")
+		}
+		short := args[2] == "short"
+		_, freshAgain := makeSharedSerializers(kind, args[3:])
+		refs := [][]byte{}
+		for _, f := range freshAgain {
+			var ref bytes.Buffer
+			if _, _, err := f(&ref); err != nil {
+				return "inputerr"
+			}
+			refs = append(refs, append([]byte{}, ref.Bytes()...))
+		}
+		first, again := makeSharedSerializers(kind, args[3:])
+		out := refs[0]
+		fw := &failingWriter{budget: k, short: short, failAt: -1}
+		cnt, hasCount, err := first(fw)
+		acc := fw.buf.Bytes()
+		good := bytes.HasPrefix(out, acc) && len(acc) <= k
+		if hasCount && cnt != int64(len(acc)) {
+			good = false
+		}
+		if err == nil && !bytes.Equal(acc, out) {
+			good = false
+		}
+		why := ""
+		for i, f := range again {
+			var buf bytes.Buffer
+			if _, _, e2 := f(&buf); e2 != nil || !bytes.Equal(buf.Bytes(), refs[i]) {
+				good = false
+				why = fmt.Sprintf(",retry%d=%d/%d,err=%v", i, buf.Len(), len(refs[i]), e2 != nil)
+			}
+		}
+		st := "ok"
+		if err != nil {
+			st = "err"
+		}
+		g := "good"
+		if !good {
+			g = fmt.Sprintf("bad(acc=%d,out=%d,count=%d%s)", len(acc), len(out), cnt, why)
+		}
+		return st + " " + g
+	})
 	register("fault", func(args []string) string {
 		kind := args[0]
 		k, err := strconv.Atoi(args[1])
